@@ -51,6 +51,9 @@ class Expander:
         # rebound since (the caller then reasons about the value *at the
         # definition*, e.g. a quantity computed once from shapes)
         self.check_stability = True
+        # False: a name bound to the result of a random draw is never replaced by the
+        # drawing expression (two textually equal draws are two different values)
+        self.expand_draws = True
 
     def rd(self, fi: FunctionInfo) -> ReachingDefs:
         r = self._rd.get(fi.qualname)
@@ -176,6 +179,8 @@ class Expander:
         a = dn.ast
         if dn.kind == "stmt":
             r = self._name_def(e, a, dn, fi, bindings, depth, seen)
+            if r is not None and not self.expand_draws and self._has_draw(r):
+                return self._leaf(e, bindings, True)
             # the substituted expression is written in terms of the names left
             # unexpanded at the definition; if one of them has been reassigned or
             # mutated between the definition and this use, it would denote
@@ -234,6 +239,31 @@ class Expander:
             prev = self._x(ast.Name(id=e.id, ctx=ast.Load()), fi, a, bindings, depth + 1, seen)
             return ast.BinOp(left=prev, op=clone_ast(a.op), right=self._x(a.value, fi, a, bindings, depth + 1, seen))
         return None
+
+    def draws_are_values(self):
+        """context: names bound to random draws keep their identity"""
+        ex = self
+
+        class _D:
+            def __enter__(self_):
+                self_.old = ex.expand_draws
+                ex.expand_draws = False
+
+            def __exit__(self_, *a):
+                ex.expand_draws = self_.old
+
+        return _D()
+
+    _DRAWS = {"shuffle", "permutation", "randint", "rand", "randn", "random", "random_sample", "choice", "normal", "uniform", "integers", "standard_normal", "binomial", "poisson", "exponential", "sample"}
+
+    def _has_draw(self, x: ast.AST) -> bool:
+        for n in ast.walk(x):
+            if isinstance(n, ast.Call):
+                f = n.func
+                nm = f.attr if isinstance(f, ast.Attribute) else (f.id if isinstance(f, ast.Name) else "")
+                if nm in self._DRAWS:
+                    return True
+        return False
 
     def lenient(self):
         ex = self
